@@ -134,7 +134,8 @@ func (w *emitWalker) memberKey(e ast.Expr) string {
 		if o := w.info.ObjectOf(x); o != nil {
 			if v, isVar := o.(*types.Var); isVar && !v.IsField() && w.depth < 6 {
 				if def := w.localDef(o); def != nil {
-					if b, ok := o.Type().Underlying().(*types.Basic); ok && b.Info()&types.IsString != 0 {
+					_, isCall := def.(*ast.CallExpr)
+					if b, ok := o.Type().Underlying().(*types.Basic); (ok && b.Info()&types.IsString != 0) || isCall {
 						w.depth++
 						k := w.memberKey(def)
 						w.depth--
@@ -694,6 +695,8 @@ func runC05(c *core.Ctx) {
 	c.Doc("C05.param-loops", "every emitter that encodes or decodes a list of parameters does so once per declared parameter, in declaration order, with the parameter's own type", 3)
 	c.Doc("C05.stub-body", "the generated stub decodes the parameters before calling the implementation with all of them and encodes the result afterwards", 1)
 	ruleParamLoops(c, typeIface)
+	c.Doc("C05.advertised", "the parameter signature the stub advertises for a method and the one the proxy sends with a call are the same expression of the method", 1)
+	ruleAdvertisedSignature(c, typeIface)
 	c.Doc("C05.proxy-body", "the generated proxy passes one argument per parameter in order", 1)
 	ruleProxyBody(c, typeIface)
 }
@@ -972,4 +975,124 @@ func loopUses(fn *ssa.Function, fa *ssa.FieldAddr) bool {
 		}
 	}
 	return false
+}
+
+// ruleAdvertisedSignature: the stub's generated meta-object advertises, for
+// each method, ParametersSignature = E(method); the generated proxy names the
+// method it calls by (name, F(method)).  The object resolves a call by exact
+// match of that pair, so E and F must be the same expression of the method.
+func ruleAdvertisedSignature(c *core.Ctx, typeIface *types.Interface) {
+	const rule = "C05.advertised"
+	sp, ip := c.Pkg("meta/stub"), c.Pkg("meta/idl")
+	if sp == nil || ip == nil {
+		c.Undecided(rule, "meta/stub", token.NoPos, "package not loaded")
+		return
+	}
+	// stub side: jen.Id("ParametersSignature"): jen.Lit(E)
+	ws := &emitWalker{p: sp, info: sp.TypesInfo, typeIface: typeIface}
+	stubKey, stubPos := "", token.NoPos
+	for _, f := range sp.Syntax {
+		ast.Inspect(f, func(n ast.Node) bool {
+			kv, ok := n.(*ast.KeyValueExpr)
+			if !ok {
+				return true
+			}
+			kc, ok := kv.Key.(*ast.CallExpr)
+			if !ok || len(kc.Args) != 1 {
+				return true
+			}
+			if s, isConst := ws.constString(kc.Args[0]); !isConst || s != "ParametersSignature" {
+				return true
+			}
+			if vc, ok := kv.Value.(*ast.CallExpr); ok && len(vc.Args) == 1 {
+				stubKey, stubPos = ws.memberKey(vc.Args[0]), kv.Pos()
+			}
+			return true
+		})
+	}
+	// proxy side: the string literal given to bus.NewParams in the emitter of a proxy
+	// method body is params.Signature(), params being what the caller passes
+	wi := &emitWalker{p: ip, info: ip.TypesInfo, typeIface: typeIface}
+	proxyKey, proxyPos := "", token.NoPos
+	for _, f := range ip.Syntax {
+		for _, d := range f.Decls {
+			fd, ok := d.(*ast.FuncDecl)
+			if !ok || fd.Body == nil {
+				continue
+			}
+			usesNewParams := false
+			ast.Inspect(fd.Body, func(n ast.Node) bool {
+				if call, ok := n.(*ast.CallExpr); ok {
+					if sel, ok := call.Fun.(*ast.SelectorExpr); ok && sel.Sel.Name == "Qual" && len(call.Args) == 2 {
+						if s, _ := wi.constString(call.Args[1]); s == "NewParams" {
+							usesNewParams = true
+						}
+					}
+				}
+				return true
+			})
+			if !usesNewParams {
+				continue
+			}
+			// first jen.Lit(x.Signature()) of the function whose receiver x is a parameter
+			ast.Inspect(fd.Body, func(n ast.Node) bool {
+				call, ok := n.(*ast.CallExpr)
+				if !ok || proxyKey != "" {
+					return true
+				}
+				sel, ok := call.Fun.(*ast.SelectorExpr)
+				if !ok || sel.Sel.Name != "Lit" || len(call.Args) != 1 {
+					return true
+				}
+				sc, ok := call.Args[0].(*ast.CallExpr)
+				if !ok {
+					return true
+				}
+				ss, ok := sc.Fun.(*ast.SelectorExpr)
+				if !ok || ss.Sel.Name != "Signature" {
+					return true
+				}
+				id, ok := ss.X.(*ast.Ident)
+				if !ok {
+					return true
+				}
+				obj := wi.info.ObjectOf(id)
+				// which parameter of fd is it, and what do the callers pass there?
+				idx := -1
+				k := 0
+				for _, fl := range fd.Type.Params.List {
+					for _, nm := range fl.Names {
+						if wi.info.Defs[nm] == obj {
+							idx = k
+						}
+						k++
+					}
+				}
+				if idx < 0 {
+					return true
+				}
+				fobj := wi.info.Defs[fd.Name]
+				for _, f2 := range ip.Syntax {
+					ast.Inspect(f2, func(m ast.Node) bool {
+						c2, ok := m.(*ast.CallExpr)
+						if !ok {
+							return true
+						}
+						if cid, ok := c2.Fun.(*ast.Ident); ok && wi.info.Uses[cid] == fobj && idx < len(c2.Args) {
+							proxyKey, proxyPos = wi.memberKey(c2.Args[idx])+".Signature()", c2.Pos()
+						}
+						return true
+					})
+				}
+				return true
+			})
+		}
+	}
+	if stubKey == "" || proxyKey == "" {
+		c.Undecided(rule, "meta/stub+meta/idl", token.NoPos, fmt.Sprintf("cannot find the two expressions (stub %q, proxy %q)", stubKey, proxyKey))
+		return
+	}
+	_ = proxyPos
+	c.Check(stubKey == proxyKey, rule, "ParametersSignature", stubPos, "stub advertises and proxy sends "+stubKey,
+		fmt.Sprintf("the generated stub advertises a method's parameters as %s while the generated proxy calls it with %s: the object matches (name, signature) exactly, so a call falls back to another overload of the same name, or is refused", stubKey, proxyKey))
 }
